@@ -266,4 +266,14 @@ CHECKS = {
         floors={"any": {"trait_table_cells": 2000, "hostile_programs": 200, "hostile_rejected": 50, "controls_accepted": 50, "miri_thread_schedules": 2}},
         assumptions=["rustc's trait solver decides accept/reject for (1) and (2): the running program only prints what the compiler resolved", "Miri's data-race detector and scheduler explore a few seeds, not all interleavings"],
     ),
+
+    "C16": dict(
+        level="exploration",
+        rule="systematically generated one-function programs: 34 handle-producing methods (erased and typed) x the conflicting-action classes of the property (mutate / clear / read / second exclusive handle / move / drop the source, escape its scope, "
+             "consume a handle twice, mutate through a typed view then reuse an earlier borrow, two simultaneous mutable paths to one element), each with its conflict-free control; conflict programs are built in batches (a program without an error is re-built "
+             "alone), controls are built, executed natively and executed under Miri; non-trivial = every program",
+        runs=[dict(mode="rel", external="ext.ext_c16")],
+        floors={"any": {"conflict_programs": 250, "conflicts_rejected": 150, "controls": 30, "controls_executed_miri": 30}},
+        assumptions=["rustc's borrow checker decides accept/reject: a program that does not build has no execution to monitor", "any compile error attributed to the probe counts as 'rejected'; error codes are recorded"],
+    ),
 }
